@@ -173,6 +173,10 @@ def run : State → List (Nat × Item) → Except String State
     | some s' => run s' r
     | none => .error s!"reject {i} {(whyNot s e).getD "?"}"
   | s, (i, .snapshot n c l fs) :: r =>
+    -- fallback while the tracer emits no `forkorder` line: at load time the
+    -- fork list of the node is whatever the snapshot lists
+    let s := if s.phase == .loading && fs.map (·.1) != s.forksOf n
+                && enabled s (.forkorder n (fs.map (·.1))) then apply s (.forkorder n (fs.map (·.1))) else s
     match checkSnapshot s n c l fs with
     | none => run s r
     | some why => .error s!"reject {i} snapshot-mismatch node={n} {why}"
